@@ -7,9 +7,10 @@ panic exactly where Rust's would (non-boundary / out of range).
 -/
 import EspadaVerif.Lemmas.TextDefs
 import EspadaVerif.Props.C08
+import EspadaVerif.Lemmas.RangeAux
 
 namespace EspadaVerif.C09
-open EspadaVerif TextDefs
+open EspadaVerif TextDefs TokenFacts RangeAux
 
 variable {W : Type}
 
@@ -17,18 +18,22 @@ variable {W : Type}
 theorem C09_parse_total (wt : WText W) (s : Bytes) :
     parseRank s ≠ .panic ∧ parseSuit s ≠ .panic ∧ parseCard s ≠ .panic ∧ parsePair s ≠ .panic
     ∧ parseToken wt s ≠ .panic ∧ parseRange wt s ≠ .panic := by
-  sorry
+  refine ⟨parseRank_ne_panic s, parseSuit_ne_panic s, parseCard_ne_panic s, parsePair_ne_panic s,
+    parseToken_ne_panic wt s, ?_⟩
+  obtain ⟨r, hr, _⟩ := parseRange_spec wt (fun _ => True) (fun _ _ _ _ _ _ _ => trivial) s
+  rw [hr]
+  exact fun e => nomatch e
 
 /-- every token that parses satisfies the order conditions its expansion relies on, so expanding and printing it
 cannot panic; the expansion holds real combos -/
 theorem C09_use_total (wt : WText W) (s : Bytes) (t : Token W) (h : parseToken wt s = .ok t) :
-    ∃ es, t.expand = .ok es ∧ (∀ e ∈ es, ComboOk e.1 ∧ e.2 = t.prob) := by
-  sorry
+    ∃ es, t.expand = .ok es ∧ (∀ e ∈ es, ComboOk e.1 ∧ e.2 = t.prob) :=
+  expand_ok t (parseToken_tokenOk wt s t h).1
 
 /-- formatting and decomposing never panic, for any range whatsoever -/
 theorem C09_range_views_total (wt : WText W) (r : HandRange W) :
-    (∃ l, rankPairs wt r = .ok l) ∧ (∃ o, orphans wt r = .ok o) ∧ (∃ txt, showRange wt r = .ok txt) := by
-  sorry
+    (∃ l, rankPairs wt r = .ok l) ∧ (∃ o, orphans wt r = .ok o) ∧ (∃ txt, showRange wt r = .ok txt) :=
+  ⟨⟨_, rankPairs_eq wt r⟩, ⟨_, orphans_eq wt r⟩, showRange_ok wt r⟩
 
 /-- **C09 (ranges).** A parsed range can be formatted, decomposed and evaluated on any flop without panicking. -/
 theorem C09_range_total (wt : WText W) (ops : WOps W) (s : Bytes) (r : HandRange W) (h : parseRange wt s = .ok r)
@@ -37,6 +42,19 @@ theorem C09_range_total (wt : WText W) (ops : WOps W) (s : Bytes) (r : HandRange
     (∃ l, rankPairs wt r = .ok l) ∧ (∃ o, orphans wt r = .ok o) ∧ (∃ txt, showRange wt r = .ok txt)
     ∧ ∃ s₀ : IterState W, (C02.mkEvaluator flop (HandRange.contents r :: others) a b).intoIter = .ok s₀ ∧
         ∀ limit, ∃ sds s', drainFuel ops limit s₀ [] = .ok (sds, s') := by
-  sorry
+  obtain ⟨h1, h2, h3⟩ := C09_range_views_total wt r
+  refine ⟨h1, h2, h3, ?_⟩
+  have hw : C02.WfInput flop (HandRange.contents r :: others) := by
+    refine ⟨hf.1, hf.2.1, hf.2.2, ?_, ?_⟩
+    · intro es hes
+      rcases List.mem_cons.mp hes with rfl | hes
+      · intro e he
+        exact parseRange_comboOk wt s r h e (mem_contents r e he)
+      · exact ho.combos es hes
+    · intro es hes
+      rcases List.mem_cons.mp hes with rfl | hes
+      · exact contents_nodup r
+      · exact ho.nodup es hes
+  exact C08.C08_total ops flop _ a b hw hs
 
 end EspadaVerif.C09
